@@ -173,7 +173,7 @@ impl TypedScenario for C18Req {
     fn budget(&self, tier: Tier) -> usize {
         match tier {
             Tier::Quick => req_sweep_len() + 1000,
-            Tier::Thorough => req_sweep_len() + 100_000,
+            Tier::Thorough => req_sweep_len() + 500_000,
         }
     }
     fn generate(&self, seed: u64, index: usize, _tier: Tier) -> ReqPlan {
@@ -344,7 +344,7 @@ impl TypedScenario for C18Status {
     fn budget(&self, tier: Tier) -> usize {
         status_sweep(tier) + match tier {
             Tier::Quick => 500,
-            Tier::Thorough => 50_000,
+            Tier::Thorough => 250_000,
         }
     }
     fn generate(&self, seed: u64, index: usize, tier: Tier) -> StatusPlan {
@@ -479,7 +479,7 @@ impl TypedScenario for C18Hdr {
     fn budget(&self, tier: Tier) -> usize {
         match tier {
             Tier::Quick => RESERVED.len() + NEAR.len() + CASEVAR.len() + 150,
-            Tier::Thorough => RESERVED.len() + NEAR.len() + CASEVAR.len() + 5000,
+            Tier::Thorough => RESERVED.len() + NEAR.len() + CASEVAR.len() + 50_000,
         }
     }
     fn generate(&self, seed: u64, index: usize, _tier: Tier) -> HdrPlan {
